@@ -126,6 +126,16 @@ Definition redirect_intact_m (cur : L) (steps : list L) (src dst buf : mems) : m
       else let x := intact cur l1 src dst buf in pingpong_m l1 r (fst x) (snd x)
   end.
 
+(** LayoutHandler.transpose / LayoutSwapper.transpose: same layout = copy of the block; one step = the direct
+    transpose; otherwise the redirect.  Returns the three arrays (source, dest, buf) afterwards. *)
+Definition transpose_m (copy : L -> mems -> mems -> mems) (cur : L) (steps : list L) (use_buf : bool)
+  (src dst buf : mems) : mems * mems * mems :=
+  match steps with
+  | [] => (src, copy cur src dst, buf)
+  | _ => if use_buf then let x := redirect_intact_m cur steps src dst buf in (src, fst x, snd x)
+         else let x := redirect_m cur steps src dst in (fst x, snd x, buf)
+  end.
+
 Lemma pingpong_fr : forall steps cur f t, route_ok cur steps = true -> Wm f -> Wm t ->
   if Nat.even (length steps)
   then fr E f (fst (pingpong_m cur steps f t)) /\ fr E t (snd (pingpong_m cur steps f t))
